@@ -396,7 +396,10 @@ pub fn make_rec_writer(e: End, wbits: usize, wrapper: &str) -> Box<dyn Wr> {
 // ---------------------------------------------------------------------------
 // Replaying a history on every real backend with every finisher
 
-pub const REAL_BACKENDS: [&str; 7] = ["vec", "vecref", "slice", "adapter", "adapter3", "adapterlazy", "rec"];
+/// "vecpre": the growable-vector writer created over a vector that already holds words (they must
+/// survive unless overwritten)
+pub const REAL_BACKENDS: [&str; 8] = ["vec", "vecref", "slice", "adapter", "adapter3", "adapterlazy", "rec", "vecpre"];
+pub const VECPRE_BYTE: u8 = 0x5A;
 
 /// A byte sink that only commits what it was given when it is flushed (like BufWriter): bytes
 /// a finished bit writer has not flushed through are not in `committed`.
@@ -449,7 +452,8 @@ impl std::io::Write for FailSink {
         Ok(())
     }
 }
-pub const FINISHERS: [&str; 4] = ["flush", "flush2", "into_inner", "drop"];
+/// "drop_unwind": the writer is dropped by a panic unwinding through its owner (dropping is dropping)
+pub const FINISHERS: [&str; 5] = ["flush", "flush2", "into_inner", "drop", "drop_unwind"];
 
 #[derive(Debug, Clone, PartialEq, Eq)]
 pub struct FinishObs {
@@ -511,6 +515,19 @@ pub fn run_on_backend(e: End, wbits: usize, backend: &str, finisher: &str, ops: 
                 }
                 return Ok(FinishObs { obs, bytes: (db.unwrap())(), flush_ret });
             }
+            if finisher == "drop_unwind" && db.is_some() {
+                // the owner of the writer panics: the writer is dropped while the thread is unwinding
+                let r = catch_unwind(AssertUnwindSafe(move || {
+                    let _owned = w;
+                    std::panic::resume_unwind(Box::new(crate::util::Budget));
+                }));
+                match r {
+                    Err(p) if p.downcast_ref::<crate::util::Budget>().is_some() => {}
+                    Err(p) => return Err(format!("panic in drop: {}", crate::util::panic_msg(&p))),
+                    Ok(()) => {}
+                }
+                return Ok(FinishObs { obs, bytes: (db.unwrap())(), flush_ret });
+            }
             let f: &dyn Fn(_) -> Vec<u8> = &$getbytes;
             let bytes = match catch_unwind(AssertUnwindSafe(|| w.into_inner().map(|b| f(b)).map_err(|e| format!("{e}")))) {
                 Ok(Ok(b)) => b,
@@ -526,6 +543,13 @@ pub fn run_on_backend(e: End, wbits: usize, backend: &str, finisher: &str, ops: 
                 "vec" => drive!($E, $W, BufBitWriter::<$E, _>::new(MemWordWriterVec::<$W, Vec<$W>>::new(Vec::new())), |b: MemWordWriterVec<$W, Vec<$W>>| bytes_from_words::<$W>(
                     &b.into_inner()
                 ), None),
+                "vecpre" => drive!(
+                    $E,
+                    $W,
+                    BufBitWriter::<$E, _>::new(MemWordWriterVec::<$W, Vec<$W>>::new(words_from_bytes::<$W>(&vec![VECPRE_BYTE; cap_words * std::mem::size_of::<$W>()]))),
+                    |b: MemWordWriterVec<$W, Vec<$W>>| bytes_from_words::<$W>(&b.into_inner()),
+                    None
+                ),
                 "slice" => drive!(
                     $E,
                     $W,
@@ -605,7 +629,17 @@ pub fn run_on_backend(e: End, wbits: usize, backend: &str, finisher: &str, ops: 
                             Ok(Ok(())) => {}
                         }
                         // drop(w) here flushes
-                        if let Err(p) = catch_unwind(AssertUnwindSafe(move || drop(w))) {
+                        if finisher == "drop_unwind" {
+                            let r = catch_unwind(AssertUnwindSafe(move || {
+                                let _owned = w;
+                                std::panic::resume_unwind(Box::new(crate::util::Budget));
+                            }));
+                            if let Err(p) = r {
+                                if p.downcast_ref::<crate::util::Budget>().is_none() {
+                                    return Err(format!("panic in drop: {}", crate::util::panic_msg(&p)));
+                                }
+                            }
+                        } else if let Err(p) = catch_unwind(AssertUnwindSafe(move || drop(w))) {
                             return Err(format!("panic in drop: {}", crate::util::panic_msg(&p)));
                         }
                     }
